@@ -779,6 +779,20 @@ func (ev *Evaluator) call(x *ECall) SVal {
 		case "loc":
 			t := ev.eval(x.Args[0])
 			return SVal{v: Val{t: "(t_loc " + t.v.t + ")"}, sort: "Ref"}
+		case "existedAtHead":
+			// existedAtHead(n, p): the object p points to was allocated before the current iteration of loop n began
+			if ev.heads == nil {
+				unsupported("spec: existedAtHead() not available here")
+			}
+			n, ok1 := x.Args[0].(*EInt)
+			if !ok1 {
+				unsupported("spec: existedAtHead(n, p)")
+			}
+			var ord int
+			fmt.Sscan(n.V, &ord)
+			hst, _ := ev.heads(ord)
+			pv := ev.eval(x.Args[1])
+			return SVal{v: Val{t: fmt.Sprintf("(<= (obj %s) %s)", pv.v.t, hst.alloc)}, typ: boolT}
 		case "sameheapSinceHead":
 			// sameheapSinceHead(n, "T"): no cell of type T differs from the start of the current iteration of loop n
 			if ev.heads == nil {
